@@ -1,6 +1,7 @@
 import ASV.Drv.J
 import ASV.Model.ProtDna
 import ASV.Spec.ProtDna
+import ASV.Spec.ProtDnaRebuild
 namespace ASV.Drv.C09
 open Lean ASV ASV.Drv ASV.ProtDna
 
@@ -108,9 +109,7 @@ def handle (j : Json) : R Json := do
     let total := l.len / 3
     let guard := decide (0 ≤ ld) && decide (0 ≤ tl) && decide (ld + tl < total)
     let expected := sliceL (bases l) 0 (3 * total).toNat
-    let sound : Bool := match prepeptideSections l ld tl with
-      | .ok x => sectionsSound (sectionList x)
-      | _ => true
+    let sound : Bool := rebuildSound l ld tl
     let oneStrand (r : Loc) : Bool := r.parts.all fun q => q.strand == l.strand
     let basesOk (r : Option Loc) (a b : Int) : Json := match r with
       | none => Json.null
